@@ -56,7 +56,7 @@ def proj_part(part):
     notes = {}
     anon = []
     g = {k: [] for k in ("measures", "time_signatures", "key_signatures", "clefs", "slurs", "tuplets", "directions",
-                         "words", "tempo", "repeats", "endings", "barline_fermatas")}
+                         "direction_words", "words", "tempo", "repeats", "endings", "barline_fermatas")}
     for o in objs:
         s, e = _t(o.start), _t(o.end)
         if isinstance(o, S.GenericNote):
@@ -92,6 +92,9 @@ def proj_part(part):
                                  o.actual_type, o.normal_type))
         elif isinstance(o, S.Direction):
             g["directions"].append((s, e, type(o).__name__, o.text, _staff_dir(o.staff), bool(getattr(o, "wedge", False))))
+            # the words of the direction as they are printed (what save_musicxml writes): raw_text if there is one,
+            # else the canonical text; an object built with text only and the one read back from its file agree on it
+            g["direction_words"].append((s, type(o).__name__, o.raw_text or o.text))
         elif isinstance(o, S.Words):
             g["words"].append((s, o.text, _staff_dir(o.staff)))
         elif isinstance(o, S.Tempo):
